@@ -1,5 +1,5 @@
 import Driver.OpsCore
-import TakVerif.Impl.FPA
+import TakVerif.Impl.FPARepair
 import TakVerif.Spec.FPA
 namespace Driver
 open Tak Codec Tak.FPA
@@ -27,10 +27,9 @@ def fpaLoop (basis : Array W) (var : Variant) (color : Color) (horizon : Nat) :
     match st.positions with
     | [] => st
     | p :: older =>
-      let prev := match older, st.moves with
-        | q :: _, m :: _ => some (viewOfPos q, m)
-        | _, _ => none
-      match friendlyGetMove var color st.rule (viewOfPos p) p.toMove prev with
+      -- the record as the repaired `Friendly.GetMove` reads it: every pair, oldest first
+      let hist := (older.reverse.zip st.moves.reverse).map fun (q, m) => (viewOfPos q, m)
+      match friendlyGetMoveR var color st.rule (viewOfPos p) p.toMove hist with
       | .error _ => { st with trace := "panic" :: st.trace }
       | .ok (r, .resign) => { st with rule := r, trace := "resign" :: st.trace }
       | .ok (r, reply) =>
